@@ -23,6 +23,7 @@ type Case struct {
 	gen.PI
 	ModesSeed uint64   `json:"modes_seed"`
 	Modes     []string `json:"modes"` // store behaviours compared (all by default; the minimiser narrows to two)
+	NoMeta    bool     `json:"no_metamorphic,omitempty"`
 }
 
 type ModeRun struct {
@@ -41,6 +42,8 @@ type Result struct {
 	Runs      []ModeRun
 	Violation *core.Violation
 	Trace     *core.Trace
+	Extra     int
+	Probed    int
 }
 
 func metaModeFor(seed uint64, mode string) string {
@@ -78,6 +81,44 @@ func Execute(c Case, keepTrace bool) Result {
 			res.Violation = &core.Violation{Property: "C10", Oracle: "no-world-request", Class: "world-requested",
 				Detail: fmt.Sprintf("store mode %s received a balance query for @world: %s", r.Mode, strings.Join(r.Log, " | "))}
 			return res
+		}
+	}
+	// oracles 3 and 4 (independent of the store's behaviour): redundant early
+	// requests change nothing; balance()/overdraft() variables hold the ledger's value
+	exactRun := func(cc Case) (exec.Outcome, bool) {
+		pp := exec.Parse(cc.Prog.Text())
+		if !pp.InDomain {
+			return exec.Outcome{}, false
+		}
+		st := store.New(cc.In, store.Plan{Mode: store.ModeExact, MetaMode: "exact", Seed: c.ModesSeed})
+		out := exec.Run(context.Background(), pp.PR, exec.CopyVars(cc.In), st, exec.Flags(cc.In))
+		if st.WorldAsked {
+			out.Err = "store was asked for @world"
+		}
+		return out, true
+	}
+	if !c.NoMeta {
+		if c2, n := withEarlyRequests(c); n > 0 {
+			if o2, ok := exactRun(c2); ok {
+				res.Extra++
+				tr.Add("[early-requests x%d] outcome %s", n, o2.Canon())
+				if base0 := res.Runs[0]; base0.Mode == store.ModeExact && o2.Canon() != base0.Outcome.Canon() {
+					res.Violation = &core.Violation{Property: "C10", Oracle: "requested-before-used", Class: "early-requests-change-result", Predicate: Predicate(c),
+						Detail: fmt.Sprintf("appending balance() variables for the %d (account, asset) pairs the script draws from changes the outcome: without %s ; with %s", n, core.Truncate(base0.Outcome.Canon(), 400), core.Truncate(o2.Canon(), 400))}
+					return res
+				}
+			}
+		}
+		if c3, want := withProbes(c); len(want) > 0 {
+			if o3, ok := exactRun(c3); ok && o3.OK() {
+				res.Extra++
+				res.Probed += len(want)
+				if msg := checkProbes(o3.TxMeta, want); msg != "" {
+					res.Violation = &core.Violation{Property: "C10", Oracle: "requested-before-used", Class: "origin-value-wrong", Predicate: Predicate(c),
+						Detail: "against a store answering exactly what is asked, " + msg}
+					return res
+				}
+			}
 		}
 	}
 	// oracle 1: answer independence
@@ -166,7 +207,9 @@ func Worker(o core.WorkerOpts) *core.Report {
 			l.Rep.Reach["skipped/"+firstWord(res.Why)]++
 			return
 		}
-		l.Rep.Evaluations += int64(len(res.Runs))
+		l.Rep.Evaluations += int64(len(res.Runs) + res.Extra)
+		l.Rep.Reach["early_request_and_probe_runs"] += int64(res.Extra)
+		l.Rep.Reach["origin_values_checked"] += int64(res.Probed)
 		exact := res.Runs[0]
 		l.Rep.Steps["store_calls"] += int64(exact.Calls)
 		for _, mr := range res.Runs {
